@@ -19,8 +19,22 @@ VAMM = "margined_vamm"
 def is_last_of_list(ix, v):
     """v is the LAST element of a stored vAMM-map's cumulative_premium_fractions list: list[len(list) - 1] or list.last()"""
     vi = ix.inline(v)
-    while tag(vi) in ("unwrap", "ok") or (tag(vi) == "call" and str(payload(vi)[0]).split("::")[-1] in ("copied", "cloned", "clone") and kids(vi)):
-        vi = ix.inline(kids(vi)[0])
+
+    def zeroish(x):
+        xi = ix.inline(x)
+        return (tag(xi) == "fnref" and str(payload(xi)[0]).endswith("Integer::zero")) or N(ix, xi) == ("pos", ("int", 0))
+    while True:
+        if tag(vi) in ("unwrap", "ok"):
+            vi = ix.inline(kids(vi)[0])
+            continue
+        if tag(vi) == "call" and kids(vi):
+            nm_ = str(payload(vi)[0]).split("::")[-1]
+            if nm_ in ("copied", "cloned", "clone") or nm_ == "unwrap_or_default" or \
+               (nm_ in ("unwrap_or", "unwrap_or_else") and len(kids(vi)) == 2 and zeroish(kids(vi)[1])):
+                # `last().copied().unwrap_or_else(Integer::zero)`: the last element, zero for an empty list
+                vi = ix.inline(kids(vi)[0])
+                continue
+        break
     if tag(vi) != "call" or not kids(vi):
         return False
     nm = str(payload(vi)[0]).split("::")[-1]
@@ -294,7 +308,7 @@ def run(ctx):
                 return tag(v) == "param" or (tag(v) == "field" and tag(kids(v)[0]) == "param" and f.kind == "Closure" and payload(kids(v)[0])[1] == 0)
 
             def is_last(v):
-                sh = sym.show(v, 4)
+                sh = sym.show(ix.inline(v), 5)
                 return "Index::index" in sh or "::last(" in sh or sh.startswith("last(")
             for p in oks:
                 for e in p.events:
@@ -386,6 +400,10 @@ def run(ctx):
                 vi = ix.inline(v)
                 if tag(vi) == "unwrap":
                     vi = ix.inline(kids(vi)[0])
+                if is_last_of_list(ix, vi):
+                    # the reader was a one-liner and has been inlined: last-or-zero of the list stored for position.vamm
+                    pv_ = ix.inline(sym.field(P, "vamm"))
+                    return pv_ in set(sym.walk(vi)) or sym.field(P, "vamm") in set(sym.walk(vi))
                 if tag(vi) != "call":
                     return False
                 t = ix.call_target(vi)
